@@ -16,7 +16,7 @@ structure Cfg where
   rebuildIndex : Bool      -- `id2index` is rebuilt when the frame changes
 deriving Repr, DecidableEq
 
-def Cfg.current : Cfg := ⟨false, false, false⟩
+def Cfg.current : Cfg := ⟨false, false, false⟩   -- the pinned upstream commit
 def Cfg.fixed : Cfg := ⟨true, true, true⟩
 
 structure State where
@@ -62,7 +62,8 @@ def updateOverwrite (cfg : Cfg) (s : State) (ids' : List Id) (rows : List Row) :
                               | some n => (i, combineRow n r)
                               | none => (i, r))
       ++ ((ids'.zip rows).filter fun (i, _) => !s.ids.contains i)
-    let sorted := sortById merged
+    -- pandas: the union of two *identical* indexes is returned as it is; any other union is sorted
+    let sorted := if ids' = s.ids then merged else sortById merged
     let ids2 := sorted.map Prod.fst
     let rows2 := sorted.map Prod.snd
     .ok { ids := ids2, frame := rows2, data := rows2,
@@ -88,11 +89,39 @@ def locWrite (cfg : Cfg) (s : State) (sel : List Id) (v : List Row) : Except Err
 def overwrite (cfg : Cfg) (s : State) (v : List Row) : Except Err State :=
   if cfg.overwriteSetter then setData s v else .ok { s with data := v }
 
+
+/-- `a.iloc[pos].data = v` : the same write-through, rows selected by position -/
+def ilocWrite (cfg : Cfg) (s : State) (pos : List Nat) (v : List Row) : Except Err State :=
+  match pos.mapM (fun k => s.ids[k]?) with
+  | none => .error .keyError
+  | some sel => locWrite cfg s sel v
+
+/-- `FEMAttributes.overwrite(name, data, ids=ids)`: the attribute is replaced by a fresh one -/
+def overwriteIds (s : State) (ids : List Id) (v : List Row) : Except Err State :=
+  mk ids v false
+
+/-! read paths -/
+/-- `a.data[k]` -/
+def dataView (s : State) (k : Nat) : Option Row := s.data[k]?
+/-- `a.loc[i].data`, `a[i]` -/
+def locView (s : State) (i : Id) : Option Row := lookupRow s.ids s.frame i
+/-- `a.iloc[k].data` -/
+def ilocView (s : State) (k : Nat) : Option Row := s.frame[k]?
+/-- `a.filter_with_ids(sel).data` (KeyError if an id is missing) -/
+def filterWithIds (s : State) (sel : List Id) : Option (List Row) := sel.mapM (locView s)
+def lookupIdx (i : Id) : List (Id × Nat) → Option Nat
+  | [] => none
+  | (j, k) :: t => if j = i then some k else lookupIdx i t
+/-- `a.ids2indices([i])` for `generate_id2index=True` -/
+def ids2indices (s : State) (i : Id) : Option Nat := s.id2index.bind (lookupIdx i)
+
 inductive Op
   | setData (v : List Row)
   | update (ids : List Id) (rows : List Row) (allowOverwrite : Bool)
   | locWrite (sel : List Id) (v : List Row)
   | overwrite (v : List Row)
+  | ilocWrite (pos : List Nat) (v : List Row)
+  | overwriteIds (ids : List Id) (v : List Row)
 deriving Repr, DecidableEq
 
 /-- a failing operation leaves the object as it was (the real code raises before mutating) -/
@@ -102,6 +131,8 @@ def step (cfg : Cfg) (s : State) : Op → State
   | .update i r false => match updateAppend s i r with | .ok t => t | .error _ => s
   | .locWrite sel v => match locWrite cfg s sel v with | .ok t => t | .error _ => s
   | .overwrite v => match overwrite cfg s v with | .ok t => t | .error _ => s
+  | .ilocWrite p v => match ilocWrite cfg s p v with | .ok t => t | .error _ => s
+  | .overwriteIds i v => match overwriteIds s i v with | .ok t => t | .error _ => s
 
 /-- the two views describe the same table, and the id→position map is the enumeration of ids -/
 def InvB (s : State) : Bool :=
